@@ -124,7 +124,7 @@ func c12Get(shape int, desc int) *c12Decl {
 	case 4: // three levels of commands (sections named by the full dotted path)
 		top.Opts = basic[:1]
 		leaf := &decl.Cmd{Field: "Leaf", Name: "leaf", Opts: append(append([]*decl.Opt{}, basic[1:]...), typed...), Groups: []*decl.Group{{Field: "LG", Name: "Leaf Group", Opts: extra}}}
-		mid := &decl.Cmd{Field: "Mid", Name: "mid", SubOptional: true, Cmds: []*decl.Cmd{leaf}}
+		mid := &decl.Cmd{Field: "Mid", Name: "mid.v2", SubOptional: true, Cmds: []*decl.Cmd{leaf}} // a dot in a command's own name
 		top.Cmds = []*decl.Cmd{{Field: "Cmd", Name: "cmd", SubOptional: true, Cmds: []*decl.Cmd{mid}}}
 	case 3: // sub-subcommand
 		top.Opts = basic[:1]
